@@ -328,10 +328,10 @@ func c11Session(t *mon.T, d c11Desc) {
 
 func genC11(g *mon.G) {
 	r := gen.Rand(g.Seed)
-	for i := 0; i < g.Pick(300, 5000); i++ {
+	for i := 0; i < g.Pick(800, 12000); i++ {
 		g.Emit(c11Desc{Seed: r.Int63(), Kind: "records", Perms: g.Pick(8, 24)})
 	}
-	for i := 0; i < g.Pick(150, 2500); i++ {
+	for i := 0; i < g.Pick(400, 8000); i++ {
 		g.Emit(c11Desc{Seed: r.Int63(), Kind: "session"})
 	}
 }
